@@ -3,4 +3,5 @@ package adapters
 
 import (
 	_ "verifharness/adapters/schedule"
+	_ "verifharness/adapters/txpool"
 )
